@@ -339,7 +339,7 @@ def can_fast_forward(repo: "BaseRepo", c1: ObjectID, c2: ObjectID) -> bool:
 
     # Algorithm: Find the common ancestor
     try:
-        min_stamp = lookup_stamp(c1)
+        lookup_stamp(c1)
     except KeyError:
         # If c1 doesn't exist in the object store, we can't determine fast-forward
         # This can happen in shallow clones where c1 is a missing parent
@@ -350,12 +350,13 @@ def can_fast_forward(repo: "BaseRepo", c1: ObjectID, c2: ObjectID) -> bool:
             return False
         raise
 
+    # Commit times are no safe cut-off: an ancestor may be newer than its
+    # descendants (clock skew, rebases), so walk without min_stamp.
     lcas = _find_lcas(
         lookup_parents,
         c1,
         [c2],
         lookup_stamp,
-        min_stamp=min_stamp,
         shallows=parents_provider.shallows,
     )
     return lcas == [c1]
